@@ -1419,7 +1419,10 @@ def splice_function(ft, directives, security=False):
                 # values_mut() visits every entry exactly once and the key set cannot change while
                 # the map is borrowed; vx_keys() (shim) returns each key exactly once, in no
                 # particular order.  Guards: PLACE is a field path, BODY has no `continue`.
-                ex = re.sub(r'\s+', '', expr)
+                # (unit writer_push) `for PAT in &mut PLACE.values_mut()`: `&mut I` is an Iterator that
+                # forwards `next()` to I (core: `impl<I: Iterator + ?Sized> Iterator for &mut I`), so the
+                # loop visits exactly the same items; the borrow of the temporary is dropped first
+                ex = re.sub(r'\s+', '', re.sub(r'^\s*&\s*mut\s+', '', expr))
                 if not ex.endswith('.values_mut()'):
                     raise Undecided('lost-anchor', 'loop %d of %s does not iterate over .values_mut()' % (k, ft.name))
                 place = ex[:-len('.values_mut()')]
